@@ -129,14 +129,23 @@ func (c *Ctx) MapDedup(fn *ssa.Function, keyGlob string, tgt Target, what string
 	return okAll
 }
 
-// inSameLoop: a is inside a cycle that also contains b.
+// inSameLoop: every cycle through the test block b passes the allocation
+// block a (the map is re-created on each iteration that tests it), or b is in
+// no cycle at all.
 func inSameLoop(a, b *ssa.BasicBlock) bool {
-	ra := ReachFrom(a.Succs, nil)
-	if !ra[a] {
-		return false // a not in any cycle
+	cut := EdgeSet{}
+	for _, p := range a.Preds {
+		for i, s := range p.Succs {
+			if s == a {
+				cut[Edge{p, i}] = true
+			}
+		}
 	}
-	rb := ReachFrom(b.Succs, nil)
-	return ra[b] && rb[a]
+	if a == b {
+		return true
+	}
+	r := ReachFrom(b.Succs, cut)
+	return !r[b]
 }
 
 // ConstArg (K3): every call of spec in the module passes the given constant
@@ -163,5 +172,50 @@ func (c *Ctx) ConstBoolArg(spec string, idx int, want bool, why string) {
 	}
 	if n == 0 {
 		c.Fail("floor", spec, "K3: call sites of "+spec, "-", "none found")
+	}
+}
+
+// StaysInLoop (K2): the edge taken when `skip` holds proceeds to the next
+// iteration of the loop whose condition is `loop` (a `continue`), it does not
+// leave that loop (a `break` would silently drop the remaining elements).
+func (c *Ctx) StaysInLoop(fn *ssa.Function, skip Cond, loop Cond, why string) {
+	if fn == nil {
+		return
+	}
+	fnName := load.QualName(fn)
+	what := "`" + condStr(skip) + "` skips one element of the loop `" + loop.Canon + "`, not the rest of it"
+	les := CondEdges(fn, Cond{Canon: loop.Canon, Sense: true})
+	ses := CondEdges(fn, skip)
+	if len(les) == 0 || len(ses) == 0 {
+		c.Fail("K2", fnName, what, "-", fmt.Sprintf("loop condition matched %d, skip condition matched %d branch(es)", len(les), len(ses)))
+		return
+	}
+	c.Sites += len(ses)
+	for _, le := range les {
+		header := le.From
+		cut := EdgeSet{}
+		for e := range BackEdges(fn) {
+			if e.To() != header {
+				cut[e] = true
+			}
+		}
+		for i := range header.Succs {
+			if (Edge{header, i}) != le {
+				cut[Edge{header, i}] = true // loop exit
+			}
+		}
+		for _, se := range ses {
+			// only skip edges inside this loop
+			if !header.Dominates(se.From) {
+				continue
+			}
+			r := ReachFrom([]*ssa.BasicBlock{se.To()}, cut)
+			site := c.At(se.From.Instrs[len(se.From.Instrs)-1])
+			if r[header] {
+				c.OK("K2", fnName, what, site, why)
+			} else {
+				c.Fail("K2", fnName, what, site, "the skip edge leaves the loop ("+why+")")
+			}
+		}
 	}
 }
